@@ -150,7 +150,7 @@ PROPS = {
                  'sd in both filters)', 'position / NED-velocity models return 2 rows'],
         undecided=['nothing further: the statement is structural']),
     'C07': dict(
-        rules=[kal.kal_rules, kal.use_after_overwrite, lambda c: purity.pur_arg(c, ('kalman',)),
+        rules=[kal.kal_rules, kal.tol_gate, kal.use_after_overwrite, lambda c: purity.pur_arg(c, ('kalman',)),
                kal.div_zero],
         decided=['no public function of kalman writes into an argument (effect analysis: direct '
                  'and augmented assignment, views, callees, overwrite flags)',
@@ -166,7 +166,7 @@ PROPS = {
                    'and "never larger than the prior" as numerical facts (they follow '
                    'algebraically)']),
     'C08': dict(
-        rules=[kal.vl_rules, kal.q_psd, kal.div_zero, layout.assembly,
+        rules=[kal.vl_rules, kal.tol_gate, kal.q_psd, kal.div_zero, layout.assembly,
                lambda c: purity.pur_arg(c, ('kalman',)),
                lambda c: dtype.dtype_inherit(c, ('kalman', 'filters')),
                lambda c: sched.sched_handover(c, (sched.FB, sched.FF)),
@@ -245,7 +245,7 @@ PROPS = {
                layout.result_form, lambda c: layout.res_collect(c, (sched.FF,)), layout.assembly,
                lambda c: sched.sched_span(c, (sched.FF,)), lambda c: sched.avg_rate(c, (sched.FF,)),
                lambda c: layout.init_state(c, (sched.FF,)), layout.call_roles,
-               kal.kal_rules, kal.use_after_overwrite, kal.vl_rules, smmodel.sm_model,
+               kal.kal_rules, kal.tol_gate, kal.use_after_overwrite, kal.vl_rules, smmodel.sm_model,
                layout.traj_roles, integrator.wa_forward,
                lambda c: interp.interp_rules(c, ('feedforward',))],
         decided=['every measurement sample is fused exactly once (epoch list de-duplicated, cursor pairing, no epoch overtaken: the C10 rules on the feedforward loop)',
@@ -277,7 +277,7 @@ PROPS = {
                lambda c: sched.sched_progress(c, (sched.FB, sched.FF)),
                layout.ff_comp, layout.sd_transform, errmodel.es_first, errmodel.es_inv,
                integrator.buf_rules, integrator.carrier, integrator.carrier_sync,
-               integrator.predict_eff, kal.kal_rules, kal.use_after_overwrite,
+               integrator.predict_eff, kal.kal_rules, kal.tol_gate, kal.use_after_overwrite,
                integrator.wa_forward],
         decided=['in each filter the state for the propagation matrices is the rotation-mean mid-point of _interpolate_pva, not an arithmetic mean of angles',
                  'both filters fuse the same set of measurement samples: same epoch-list stages (merge, de-duplication, clip to [start, end], sentinel) in both loops',
@@ -402,7 +402,8 @@ def run(ctx):
                                    lambda c: names.field_state(c, anchored),
                                    lambda c: names.time_rtol(c, anchored),
                                    lambda c: names.zero_by_sum(c, anchored),
-                                   lambda c: dtype.dtype_narrow(c, anchored)]
+                                   lambda c: dtype.dtype_narrow(c, anchored),
+                                   lambda c: dtype.dtype_fill(c, anchored)]
     # shared mutable state in the anchored modules makes every for-all-inputs claim depend on the
     # calls made before (two seeds - C06 round 2, C05 round 5 - hid a work buffer in a class
     # constant): PUR-GLOBAL on the anchored modules, unless the property runs it already
